@@ -311,14 +311,19 @@ func enumerate(emit func(*config)) {
 	// macro1: every program of <= 1 macro over the full alphabet, all entries
 	withBehaviours("macro1", nil, behB, behC, variantsFull, emit)
 	words(full, 1, func(w []string) { withBehaviours("macro1", w, behB, behC, variantsFull, emit) })
-	// macro2: every program of 2 macros over the full alphabet
-	words(full, 2, func(w []string) { withBehaviours("macro2", w, behB, behC, variantsMid, emit) })
-	// macro3: every program of 3 macros over the reduced alphabet
-	words(red, 3, func(w []string) {
-		withBehaviours("macro3", w, basicB, behC, func(bool) []variant { return variantsLong() }, emit)
-	})
+	if !core.Thorough() {
+		// quick: every program of 2 macros over the reduced alphabet
+		words(red, 2, func(w []string) { withBehaviours("macro2r", w, behB, behC, variantsMid, emit) })
+	}
 	if core.Thorough() {
-		words(red, 4, func(w []string) {
+		// macro2: every program of 2 macros over the full alphabet
+		words(full, 2, func(w []string) { withBehaviours("macro2", w, behB, behC, variantsMid, emit) })
+		// macro3: every program of 3 macros over the reduced alphabet
+		words(red, 3, func(w []string) {
+			withBehaviours("macro3", w, basicB, behC, func(bool) []variant { return variantsLong() }, emit)
+		})
+		// macro4: every program of 4 macros over the mini alphabet
+		words(miniAlphabet(), 4, func(w []string) {
 			withBehaviours("macro4", w, basicB, behC, func(bool) []variant { return variantsLongest() }, emit)
 		})
 		// ab: A of <= 2 macros that reaches B x every B of <= 2 macros (both over the reduced alphabet)
@@ -349,8 +354,11 @@ func enumerate(emit func(*config)) {
 		emit(&config{set: set, to: "A", raw: true, araw: append([]byte{}, code...), b: behaviours["stop"], c: behaviours["stop"],
 			vf: func(g *config) []variant { return withData(g, vs) }})
 	}
-	raw2 := cross("call", []uint64{2300, 100000, gasHuge}, []int{0, 1}, []int{preFresh})
-	raw2 = append(raw2, variant{kind: "call", gas: 100000, pre: preDirty}, variant{kind: "static", gas: 100000}, variant{kind: "create", gas: 100000})
+	raw2 := []variant{{kind: "call", gas: 100000}, {kind: "static", gas: 100000}}
+	if core.Thorough() {
+		raw2 = cross("call", []uint64{2300, 100000, gasHuge}, []int{0, 1}, []int{preFresh})
+		raw2 = append(raw2, variant{kind: "call", gas: 100000, pre: preDirty}, variant{kind: "static", gas: 100000}, variant{kind: "create", gas: 100000})
+	}
 	rawCfg("raw2", nil, raw2)
 	for a := 0; a < 256; a++ {
 		rawCfg("raw2", []byte{byte(a)}, raw2)
@@ -362,10 +370,12 @@ func enumerate(emit func(*config)) {
 	}
 	raw3 := cross("call", []uint64{100000, gasHuge}, []int{0, 1}, []int{preFresh})
 	raw3 = append(raw3, variant{kind: "static", gas: 100000})
-	for _, a := range rawOps3 {
-		for _, b := range rawOps3 {
-			for _, c := range rawOps3 {
-				rawCfg("raw3", []byte{a, b, c}, raw3)
+	if core.Thorough() {
+		for _, a := range rawOps3 {
+			for _, b := range rawOps3 {
+				for _, c := range rawOps3 {
+					rawCfg("raw3", []byte{a, b, c}, raw3)
+				}
 			}
 		}
 	}
@@ -392,8 +402,12 @@ func enumerate(emit func(*config)) {
 		}
 		for _, in := range list {
 			g := &config{set: "precompile", to: fmt.Sprintf("P%d", p), b: behaviours["stop"], c: behaviours["stop"], a: []string{"STOP"}}
-			for _, gas := range []uint64{0, 2300, 100000, gasHuge} {
-				for _, v := range []int{0, 1} {
+			gases, values := []uint64{0, 100000}, []int{0}
+			if core.Thorough() {
+				gases, values = []uint64{0, 2300, 100000, gasHuge}, []int{0, 1}
+			}
+			for _, gas := range gases {
+				for _, v := range values {
 					g.variants = append(g.variants, variant{kind: "call", gas: gas, value: v, data: hex.EncodeToString(in)})
 				}
 				if p != 9 {
@@ -528,7 +542,7 @@ func main() {
 		return
 	}
 	r := core.NewResult(prop, "exploration")
-	r.Rule = "bounded exhaustive program enumeration on the real EVM over the real account.Manager: every program for A of <= 2 macros over the full macro alphabet (" +
+	r.Rule = "(quick tier: programs of 2 macros over the reduced alphabet only, raw programs of length <= 2 with two entries, precompiles with gas {0,100000} and value 0; thorough: 4-macro programs over a " + fmt.Sprint(len(miniAlphabet())) + "-macro mini alphabet) bounded exhaustive program enumeration on the real EVM over the real account.Manager: every program for A of <= 2 macros over the full macro alphabet (" +
 		fmt.Sprint(len(fullAlphabet())) + " macros: pushes, DUP1, POP, MSTORE, SSTORE, SLOAD, LOG0/1, JUMP/JUMPI/JUMPDEST to valid and invalid destinations, RETURN, REVERT, INVALID, STOP, GAS, SELFDESTRUCT, " +
 		"CALL/CALLCODE/DELEGATECALL/STATICCALL to {self,B,C,empty account,precompiles 1-9} x value {0,1} x gas {all,2300,0}, CREATE with ok/reverting/oversize init code) and of 3 (thorough: 4) macros over a " +
 		fmt.Sprint(len(reducedAlphabet())) + "-macro sub-alphabet, each x the fixed behaviours of B and C that its call graph reaches (thorough adds A<=2 x every B<=2); all raw byte programs of length <= 2 and of length 3 (thorough: 4) over " +
